@@ -224,10 +224,11 @@ def main(run):
     tasks = [t for t in tasks_for(run, "props.c07", PROP) if applicable(t["rec"])]
     d = 2 if run.tier == "quick" else 3
     for kT, kF, nm in (("leaf", "fleaf", "ParentLeaf"), ("kids", "fkids", "ParentKids")):
-        tasks.append({"rec": {"name": nm + "T", "attrs": [{"kind": "int", "default": "lit"}, {"kind": kT, "default": "mut"}], "opts": {}},
-                      "recF": {"name": nm + "F", "attrs": [{"kind": "int", "default": "lit"}, {"kind": kF, "default": "mut"}],
-                               "opts": {"leaf_is_frozen": True}},
-                      "depth": d, "tier": run.tier, "max_states": 600})
+        for dflt in ("mut", "none"):
+            tasks.append({"rec": {"name": nm + dflt + "T", "attrs": [{"kind": "int", "default": "lit"}, {"kind": kT, "default": dflt}], "opts": {}},
+                          "recF": {"name": nm + dflt + "F", "attrs": [{"kind": "int", "default": "lit"}, {"kind": kF, "default": dflt}],
+                                   "opts": {"leaf_is_frozen": True}},
+                          "depth": d, "tier": run.tier, "max_states": 600})
     for rec in pmap(explore_twins, tasks):
         run.merge(rec)
     run.add(rule=(
